@@ -43,19 +43,19 @@ type RuleInfo struct {
 
 // Ctx collects the obligations of one property run.
 type Ctx struct {
-	Prop     string
-	Tier     string
-	P        *Prog
-	Obs      []*Ob
-	Rules    map[string]*RuleInfo
-	ruleOrd  []string
-	Funcs    map[string]bool // functions analysed
-	Paths    int             // paths / valuations enumerated
-	Atoms    map[string]bool
-	Notes    []string
-	Known    []KnownFinding
-	knownHit []string
-	Extra    map[string]any
+	Prop      string
+	Tier      string
+	P         *Prog
+	Obs       []*Ob
+	Rules     map[string]*RuleInfo
+	ruleOrd   []string
+	Funcs     map[string]bool // functions analysed
+	Paths     int             // paths / valuations enumerated
+	Atoms     map[string]bool
+	Notes     []string
+	Known     []KnownFinding
+	knownHit  []string
+	Extra     map[string]any
 	noImports bool // set on child contexts whose parent must not be re-entered
 }
 
